@@ -52,31 +52,14 @@ fn ev_key(e: &KEvent, k: &kernel::Kernel) -> (u8, String, u64, u64, i64) {
     (e.op as u8, path, e.off, e.len, ret)
 }
 
-/// same episodes once on the simulated kernel and once on the real kernel with the same
-/// tracing: API results, the complete kernel-call sequence and the final bytes must agree
-pub fn twin(n: u64) -> i32 {
-    let root_sim = crate::worker::scratch_root("ts");
-    let root_real = crate::worker::scratch_root("tr");
-    runner::install_panic_hook();
-    let mut bad = 0;
-    let mut compared = 0u64;
-    let mut events = 0u64;
-    for i in 0..n {
-        let prop = ["C01", "C02", "C05", "C11", "C14"][(i % 5) as usize];
-        for mut ep in profiles::episodes(prop, Tier::Quick, 4242, i) {
-            ep.buggify = None;
-            ep.faults.clear();
-            ep.checks = Checks { model: true, audit_every: 50, ..Default::default() };
-            for s in ep.steps.iter_mut() {
-                if let Step::Reopen { xproc, .. } = s {
-                    *xproc = false;
-                }
-            }
+/// one episode on the simulated kernel and on the real kernel (same tracing): a description
+/// of the first difference, and the number of kernel calls compared
+fn twin_one(ep: &Episode, root_sim: &str, root_real: &str) -> (Option<String>, u64, u64) {
             // simulated
-            kernel::install(&root_sim, Mode::Sim);
+            kernel::install(root_sim, Mode::Sim);
             kernel::with(|k| k.log = Some(Vec::new()));
-            let env = Env { root: root_sim.clone(), verbose: false, allow_xproc: false, exe: String::new() };
-            let a = oracles::run(&ep, &env);
+            let env = Env { root: root_sim.to_string(), verbose: false, allow_xproc: false, exe: String::new() };
+            let a = oracles::run(ep, &env);
             let (log_a, imgs_a): (Vec<_>, Vec<(String, Img)>) = kernel::with(|k| {
                 let l = k.log.as_ref().unwrap().iter().map(|e| ev_key(e, k)).collect();
                 let im = k.paths().into_iter().map(|p| (p.rsplit('/').next().unwrap().to_string(), k.file(&p).unwrap().written.clone())).collect();
@@ -84,17 +67,15 @@ pub fn twin(n: u64) -> i32 {
             });
             kernel::uninstall();
             // real kernel, traced
-            clean_real_dirs(&root_real);
-            kernel::install(&root_real, Mode::Trace);
+            clean_real_dirs(root_real);
+            kernel::install(root_real, Mode::Trace);
             kernel::with(|k| k.log = Some(Vec::new()));
-            let env = Env { root: root_real.clone(), verbose: false, allow_xproc: false, exe: String::new() };
-            let b = oracles::run(&ep, &env);
+            let env = Env { root: root_real.to_string(), verbose: false, allow_xproc: false, exe: String::new() };
+            let b = oracles::run(ep, &env);
             let log_b: Vec<_> = kernel::with(|k| k.log.as_ref().unwrap().iter().map(|e| ev_key(e, k)).collect());
             let paths_b = kernel::with(|k| k.paths());
             kernel::uninstall();
             let imgs_b: Vec<(String, Img)> = paths_b.iter().filter_map(|p| golden::img_from_real_file(p).ok().map(|im| (p.rsplit('/').next().unwrap().to_string(), im))).collect();
-            compared += 1;
-            events += log_a.len() as u64;
             let mut problem = None;
             if a.result_hash != b.result_hash || a.violation.as_ref().map(|v| &v.signature) != b.violation.as_ref().map(|v| &v.signature) {
                 problem = Some(format!("API results differ (violations {:?} / {:?})", a.violation.map(|v| v.signature), b.violation.map(|v| v.signature)));
@@ -110,6 +91,35 @@ pub fn twin(n: u64) -> i32 {
                     problem = Some("final file bytes differ".to_string());
                 }
             }
+            // writes / truncates that were refused or shortened
+            let odd = log_a.iter().filter(|e| (e.0 == KOp::Write as u8 && (e.4 < 0 || (e.4 as u64) < e.3)) || (e.0 == KOp::Ftruncate as u8 && e.4 < 0)).count() as u64;
+            (problem, log_a.len() as u64, odd)
+}
+
+/// same episodes once on the simulated kernel and once on the real kernel with the same
+/// tracing: API results, the complete kernel-call sequence and the final bytes must agree
+pub fn twin(n: u64) -> i32 {
+    let root_sim = crate::worker::scratch_root("ts");
+    let root_real = crate::worker::scratch_root("tr");
+    runner::install_panic_hook();
+    let mut bad = 0;
+    let mut compared = 0u64;
+    let mut events = 0u64;
+    for i in 0..n {
+        const SHAPES: [&str; 14] = ["C01", "C02", "C05", "C11", "C14", "C03", "C04", "C06", "C08", "C09", "C10", "C15", "C17", "C07"];
+        let prop = SHAPES[(i % SHAPES.len() as u64) as usize];
+        for mut ep in profiles::episodes(prop, Tier::Quick, 4242, i) {
+            ep.buggify = None;
+            ep.faults.clear();
+            ep.checks = Checks { model: true, audit_every: 50, ..Default::default() };
+            for s in ep.steps.iter_mut() {
+                if let Step::Reopen { xproc, .. } = s {
+                    *xproc = false;
+                }
+            }
+            let (problem, n_ev, _) = twin_one(&ep, &root_sim, &root_real);
+            compared += 1;
+            events += n_ev;
             if let Some(p) = problem {
                 bad += 1;
                 println!("twin mismatch at {prop} index {i}: {p}");
@@ -121,6 +131,61 @@ pub fn twin(n: u64) -> i32 {
     let _ = std::fs::remove_dir_all(&root_real);
     println!("twin: {compared} episodes, {events} kernel calls compared call by call with the real kernel, {bad} mismatches");
     if bad > 0 {
+        2
+    } else {
+        0
+    }
+}
+
+/// the simulated size-cap fault against the real thing: the size-cap episodes derived for C16
+/// (cap placed at the start / inside / at the last byte of each write of the flush under test)
+/// run once on the simulated kernel and once on the real kernel under a real RLIMIT_FSIZE
+/// (SIGXFSZ ignored). The real limit is per process, so the cap applies to all three files in
+/// both runs. API results, kernel-call sequence (incl. short counts and EFBIG) and final bytes
+/// must agree.
+pub fn twin_cap(n: u64) -> i32 {
+    let root_sim = crate::worker::scratch_root("cs");
+    let root_real = crate::worker::scratch_root("cr");
+    runner::install_panic_hook();
+    let (mut bad, mut compared, mut events, mut refused, mut with_err) = (0u64, 0u64, 0u64, 0u64, 0u64);
+    for i in 0..n {
+        for base in profiles::episodes("C16", Tier::Quick, 777, i) {
+            kernel::install(&root_sim, Mode::Sim);
+            let env = Env { root: root_sim.clone(), verbose: false, allow_xproc: false, exe: String::new() };
+            let out = oracles::run(&base, &env);
+            kernel::uninstall();
+            for mut ep in profiles::derive("C16", Tier::Quick, &base, &out) {
+                if ep.profile != "size-cap" {
+                    continue;
+                }
+                ep.buggify = None;
+                ep.faults.clear();
+                ep.checks = Checks { model: true, fault_report: true, audit_every: 50, ..Default::default() };
+                for s in ep.steps.iter_mut() {
+                    match s {
+                        Step::Reopen { xproc, .. } => *xproc = false,
+                        Step::Cap { file, .. } => file.clear(),
+                        _ => {}
+                    }
+                }
+                let (problem, n_ev, odd) = twin_one(&ep, &root_sim, &root_real);
+                compared += 1;
+                events += n_ev;
+                refused += odd;
+                with_err += (odd > 0) as u64;
+                if let Some(p) = problem {
+                    bad += 1;
+                    println!("twin-cap mismatch at index {i}: {p}");
+                }
+            }
+        }
+    }
+    kernel::real_fsize_limit(None);
+    clean_real_dirs(&root_real);
+    let _ = std::fs::remove_dir_all(&root_sim);
+    let _ = std::fs::remove_dir_all(&root_real);
+    println!("twin-cap: {compared} size-cap episodes, {events} kernel calls compared call by call with the real kernel under RLIMIT_FSIZE ({refused} refused or shortened writes/truncates in {with_err} episodes), {bad} mismatches");
+    if bad > 0 || with_err == 0 {
         2
     } else {
         0
@@ -240,9 +305,10 @@ pub fn main(args: &[String]) -> i32 {
             determinism(&props, evals)
         }
         Some("twin") => twin(args.get(1).and_then(|s| s.parse().ok()).unwrap_or(400)),
+        Some("twin-cap") => twin_cap(args.get(1).and_then(|s| s.parse().ok()).unwrap_or(300)),
         Some("decoder") => decoder_cases(),
         _ => {
-            eprintln!("usage: abysim selftest determinism [evals] [props..] | twin [n] | decoder");
+            eprintln!("usage: abysim selftest determinism [evals] [props..] | twin [n] | twin-cap [n] | decoder");
             2
         }
     }
